@@ -89,6 +89,11 @@ class StepProbe:
         self.maybe_fail(k, "H")
         return _ham_step(k) + 0.3 * (a * SM.conj().T + np.conj(a) * SM)
 
+    def ham_field2(self, t, a):
+        k = self.step_of(t)
+        self.maybe_fail(k, "H2")
+        return 0.7 * _ham_step(k + 1) + 0.2 * (a * SM.conj().T + np.conj(a) * SM)
+
     def field_eom(self, t, states, a):
         stage = ("deriv", "rk1", "rk2")[self.eom_pos]
         k = int(round((t - START) / DT)) - (1 if stage == "rk2" else 0)
@@ -123,8 +128,10 @@ def make_mf(fail):
     params = oqupy.TempoParameters(dt=DT, epsrel=1e-14, dkmax=2, subdiv_limit=None)
     rho0 = np.array([[0.7, 0.2 - 0.1j], [0.2 + 0.1j, 0.3]])
     fs = oqupy.TimeDependentSystemWithField(pr.ham_field)
-    mfs = oqupy.MeanFieldSystem([fs], field_eom=pr.field_eom)
-    t = oqupy.MeanFieldTempo(mfs, [bath], params, [rho0], 0.3 + 0.1j, START)
+    fs2 = oqupy.TimeDependentSystemWithField(pr.ham_field2)
+    bath2 = oqupy.Bath(0.5 * SX, probes.make_probe_sd(_bath(DT) * 0.7, DT))
+    mfs = oqupy.MeanFieldSystem([fs, fs2], field_eom=pr.field_eom)
+    t = oqupy.MeanFieldTempo(mfs, [bath, bath2], params, [rho0, rho0.T.copy()], 0.3 + 0.1j, START)
     pr.armed = True
     pr.eom_pos = 0
     return t, pr
@@ -135,7 +142,9 @@ def observe_tempo(obj, kind):
     if dyn is None:
         return None
     if kind == "mf":
-        return (np.array(dyn.times), np.array(dyn.system_dynamics[0].states), np.array(dyn.fields))
+        return (np.array(dyn.times),
+                np.concatenate([np.array(dyn.system_dynamics[0].states), np.array(dyn.system_dynamics[1].states)], axis=1),
+                np.array(dyn.fields))
     return (np.array(dyn.times), np.array(dyn.states), None)
 
 
@@ -390,7 +399,7 @@ def replay_case(case):
 KINDS = {
     # kind: (FailSet, PreSet, known deviation or None, all deviations for adequacy)
     "tempo": ('{<<99,"none">>} \\cup {<<k,"H">> : k \\in 0..(MaxStep-1)}', "{{}}", None, ["StepBeforeEval"]),
-    "mf": ('{<<99,"none">>} \\cup {<<k,s>> : k \\in 0..(MaxStep-1), s \\in {"deriv","H","rk1","rk2"}}', "{{}}",
+    "mf": ('{<<99,"none">>} \\cup {<<k,s>> : k \\in 0..(MaxStep-1), s \\in {"deriv","H","H2","rk1","rk2"}}', "{{}}",
            "MFMutateBeforeField", ["MFMutateBeforeField"]),
     "tebd": ('{<<99,"none">>}', "SUBSET (0..MaxStep)", "RestartReappliesPre", ["RestartReappliesPre"]),
     "ptt": ('{<<99,"none">>}', "{{}}", None, ["SecondComputeRaises"]),
